@@ -28,6 +28,39 @@ structure Prims where
   ecdsaSign : (hash : String) → Key → (msg : Bytes) → Except Err (Nat × Nat)
   /-- `random.choice` over a list of the given (non-zero) length: the chosen index. -/
   choice : Nat → Except Err Nat
+  -- JWE
+  /-- `secrets.token_bytes(n)` as the `idx`-th draw of this call (the tape of C18). -/
+  tokenBytes : (idx n : Nat) → Except Err Bytes
+  /-- fresh ephemeral key on the curve of the given key (`generate_key(curve_name, private=True)`), `idx`-th generation. -/
+  genEphemeral : (idx : Nat) → Key → Except Err Key
+  /-- `binding.import_from_dict` for an `epk` that passed `validate_dict_key`: native key from JWK numbers (pyca; `ValueError` on bad points/lengths). -/
+  keyFromDict : (kty : String) → Dict → Except Err Key
+  /-- RSA key encryption/decryption with the row's padding (`ValueError` on failure). -/
+  rsaEncrypt : JweAlgRow → Key → Bytes → Except Err Bytes
+  rsaDecrypt : JweAlgRow → Key → Bytes → Except Err Bytes
+  /-- RFC 3394 (`aes_key_wrap` / `aes_key_unwrap`; `InvalidUnwrap` is reported as `decodeError`). -/
+  aesKeyWrap : (kek cek : Bytes) → Except Err Bytes
+  aesKeyUnwrap : (kek ek : Bytes) → Except Err Bytes
+  /-- AES-GCM: `(ciphertext, tag)`; decryption: `InvalidTag` is reported as `decodeError`, bad sizes as `valueError`. -/
+  gcmEncrypt : (key iv aad pt : Bytes) → Except Err (Bytes × Bytes)
+  gcmDecrypt : (key iv aad ct tag : Bytes) → Except Err Bytes
+  /-- AES-CBC with PKCS#7 padding. -/
+  cbcEncrypt : (key iv pt : Bytes) → Except Err Bytes
+  cbcDecrypt : (key iv ct : Bytes) → Except Err Bytes
+  /-- (X)ChaCha20-Poly1305 (PyCryptodome). -/
+  chachaEncrypt : (key nonce aad pt : Bytes) → Except Err (Bytes × Bytes)
+  chachaDecrypt : (key nonce aad ct tag : Bytes) → Except Err Bytes
+  /-- `ConcatKDFHash(SHA256, length, otherinfo).derive(z)` -/
+  concatKdf : (z otherInfo : Bytes) → (len : Nat) → Except Err Bytes
+  /-- `PBKDF2HMAC(hash, length, salt, iterations).derive(password)` -/
+  pbkdf2 : (hash : String) → (pw salt : Bytes) → (iters len : Nat) → Except Err Bytes
+  /-- ECDH / X25519 / X448: private key × public key → shared secret. -/
+  dh : (priv pub : Key) → Except Err Bytes
+  /-- `zlib.compress(s)[2:-4]` -/
+  deflateRaw : Bytes → Except Err Bytes
+  /-- one `decompressobj(...).decompress(s, max)` call plus the pending-output probe:
+  output (at most `max` octets) and whether more output exists. `zlib.error` ↦ `zlibError`. -/
+  inflate : (zlibHeader : Bool) → Bytes → (max : Nat) → Except Err (Bytes × Bool)
 
 /-- Python `try: x except (classes): handler` — the driver's `need` is never caught. -/
 def tryCatchCls {α} (x : Except Err α) (caught : Err → Bool) (handler : Err → Except Err α) : Except Err α :=
